@@ -32,6 +32,7 @@ OBLIGATIONS = {
     "file_over_default": "a config-file value different from the default with no explicit option", "junk_key": "a config file with an undefined key",
     "option_before_subcommand": "a base-parser option that the subcommand does not redeclare, typed before the subcommand",
     "subcommand_redeclares_option": "key/pubkey --output-format (declared by the subcommand itself, with the extra pem choice) covered",
+    "fragmented_stdin": "a main() run whose standard input delivers fewer bytes per read than asked",
     "long_digit_string": "a hex / binary digit string of 4095 .. 2M digits (whole and partial bytes) was converted",
     "empty_input": "empty input converted", "odd_nibbles": "hex input with an odd number of digits", "bits_not_multiple_of_8": "binary input "
     "whose length is not a multiple of 8",
@@ -110,7 +111,32 @@ def option_table():
     return out
 
 
-def run_main(argv, stdin=b"", files=None, mode="config", toml_support=True):
+class DribbleIn(io.BufferedIOBase):
+    """standard input as an unbuffered pipe / terminal delivers it: read(n) returns at most `k` bytes per call (never b"" before the end)"""
+
+    def __init__(self, data, k):
+        self.data, self.k, self.pos = data, k, 0
+
+    def readable(self):
+        return True
+
+    def read(self, n=-1):
+        if n is None or n < 0:
+            out, self.pos = self.data[self.pos:], len(self.data)
+            return out
+        out = self.data[self.pos:self.pos + min(n, self.k)]
+        self.pos += len(out)
+        return out
+
+    read1 = read
+
+    def readinto(self, b):
+        d = self.read(len(b))
+        b[:len(d)] = d
+        return len(d)
+
+
+def run_main(argv, stdin=b"", files=None, mode="config", toml_support=True, dribble=None):
     """one in-process main() run. files: {"toml": dict|None, "json": dict|None}. Returns observation dict."""
     import bits
     import bits.__main__ as bm
@@ -159,7 +185,7 @@ def run_main(argv, stdin=b"", files=None, mode="config", toml_support=True):
     out = io.TextIOWrapper(io.BytesIO(), encoding="utf-8", newline="")
     err = io.StringIO()
     sys.argv = ["bits"] + argv[:1] * 0 + (["--config-dir", cdir] + argv)
-    sys.stdin = io.TextIOWrapper(io.BytesIO(stdin), encoding="utf-8", newline="")
+    sys.stdin = io.TextIOWrapper(io.BytesIO(stdin) if not dribble else DribbleIn(stdin, dribble), encoding="utf-8", newline="")
     sys.stdout, sys.stderr = out, err
     bm.Config = RecConfig
     bits.set_log_level = sll
@@ -409,7 +435,7 @@ def chk_conv(case):
         b = bytes.fromhex(case["data"])
         fo, fi = case["out"], case["in"]
         stdin = ref_convert_out(fi, b)
-        obs = run_main([f"--input-format={fi}", f"--output-format={fo}"], stdin=stdin, mode="full")
+        obs = run_main([f"--input-format={fi}", f"--output-format={fo}"], stdin=stdin, mode="full", dribble=case.get("dribble"))
         if obs["stdout"] != ref_convert_out(fo, b):
             cls = "empty" if not b else "leading-zero" if b[0] == 0 else "plain"
             return [(f"C20/convert/main/{fi}->{fo}/{cls}", f"bits -1{fi} -0{fo} on {stdin[:30]!r} wrote {obs['stdout'][:40]!r} (ret {str(obs['ret'])[:60]}), "
@@ -417,7 +443,14 @@ def chk_conv(case):
     return out
 
 
-CASES = {"prec": chk_prec, "behaviour": chk_behaviour, "conv": chk_conv}
+def chk_usage(case):
+    """a run that argparse itself ends (usage error, --help, unreadable --in-file) AFTER explicit options were given: no oracle
+    of its own - it is history for the runs that follow in the same process"""
+    run_main(list(case["argv"]), stdin=b"00", files={"toml": case.get("toml"), "json": None}, mode="full")
+    return []
+
+
+CASES = {"prec": chk_prec, "behaviour": chk_behaviour, "conv": chk_conv, "usage": chk_usage}
 
 
 CASES_EXTRA = {"cross": chk_cross}
@@ -443,6 +476,12 @@ def seq_ops(job):
             ops.append(("prec", {"sub": sub, "dest": dest, "opt": opt, "pos": [], **node}))
     ops.append(("conv", {"mode": "main", "data": "00ff", "out": "bin", "in": "hex"}))
     ops.append(("conv", {"mode": "roundtrip", "data": "", "out": "hex", "in": "bin"}))
+    # runs that end inside argparse after explicit options (every configurable option given explicitly, then the error)
+    every = ["--output-format=bin", "--input-format=bin", "--log-level=debug", "--network=testnet"]
+    ops.append(("usage", {"argv": every + ["--in-file", "/no/such/dir/no-such-file"]}))
+    ops.append(("usage", {"argv": every + ["--no-such-option"]}))
+    ops.append(("usage", {"argv": every + ["-h"]}))
+    ops.append(("usage", {"argv": ["addr"] + every[:1] + ["--network=testnet", "--bogus"]}))
     return ops
 
 
@@ -703,6 +742,18 @@ def run_job(job):
                 acc.executions += 1
                 acc.nontrivial += 1
                 acc.check("conv", {"mode": "main", "data": b.hex(), "out": fo, "in": fi}, chk_conv)
+        # standard input that arrives in fragments (an unbuffered pipe, a terminal): read(n) returns fewer bytes than asked
+        for b in [filler(seed, "c20-dr", 33), b"\x00" + filler(seed, "c20-dr2", 70000)]:
+            for k in (1, 7, 4096):
+                for fo, fi in itertools.product(fmts, repeat=2):
+                    i += 1
+                    if i % nsh != sh or (len(b) > 1000 and k == 1):
+                        continue
+                    acc.evaluations += 1
+                    acc.executions += 1
+                    acc.nontrivial += 1
+                    acc.ob("fragmented_stdin")
+                    acc.check("conv", {"mode": "main", "data": b.hex(), "out": fo, "in": fi, "dribble": k}, chk_conv)
         acc.states += 1
         acc.transitions += 1
         acc.sample({"conv": "all byte strings <= 2 x 9 format pairs; hex <= 4 digits; bin <= 12 bits"})
